@@ -56,7 +56,8 @@ impl PatchIndexEntry {
     /// Returns the entry and the number of bytes consumed.
     pub fn parse(data: &[u8], key_size: u8) -> Option<Self> {
         let size = entry_size(key_size);
-        if data.len() < size {
+        // Keys are held in 16-byte fields: a larger key size cannot be represented
+        if data.len() < size || key_size as usize > 16 {
             return None;
         }
 
